@@ -64,7 +64,7 @@ class NetExecutor(TraceExecutor):
             resp = mk()
             if resp is not None:          # a conditional delivery whose request is not outstanding is skipped
                 break
-        self.delivered.append(tuple(resp))
+        self.delivered.append(tuple(resp) if isinstance(resp, tuple) else (type(resp).__name__,))
         self._handle_epr_response(resp)
 
     def undelivered_pairs(self) -> int:
@@ -99,7 +99,7 @@ class NetExecutor(TraceExecutor):
                 resp = mk()
                 if resp is None:
                     continue
-                self.delivered.append(tuple(resp))
+                self.delivered.append(tuple(resp) if isinstance(resp, tuple) else (type(resp).__name__,))
                 self._handle_epr_response(resp)
 
     # record allocation events as well (a freed / newly allocated virtual qubit starts with a clean Pauli frame)
@@ -122,6 +122,28 @@ def ok_k(ex: NetExecutor, *, creator: bool, purpose_id, remote_node_id, bell_sta
         return LinkLayerOKTypeK(type=ReturnType.OK_K, create_id=create_id, logical_qubit_id=p,
                                 directionality_flag=0 if creator else 1, sequence_number=seq, purpose_id=purpose_id,
                                 remote_node_id=remote_node_id, goodness=goodness, goodness_time=goodness_time, bell_state=bell_state)
+    return mk
+
+
+def ok_k_qlink1(ex: NetExecutor, *, creator: bool, purpose_id, remote_node_id, bell_name: str, create_id=0, seq=0, goodness=0):
+    """the same keep response in qlink-interface 1.0 form, Bell state given as that interface's enum member (by name)"""
+    import qlink_interface as ql
+
+    def mk():
+        return ql.ResCreateAndKeep(create_id=create_id, directionality_flag=0 if creator else 1, sequence_number=seq, purpose_id=purpose_id,
+                                   remote_node_id=remote_node_id, goodness=goodness, bell_state=ql.BellState[bell_name],
+                                   logical_qubit_id=ex.unused_physical(), time_of_goodness=0)
+    return mk
+
+
+def ok_m_qlink1(ex: NetExecutor, *, creator: bool, purpose_id, remote_node_id, bell_name: str, outcome=0, basis_name="Z", create_id=0, seq=0,
+                goodness=0):
+    import qlink_interface as ql
+
+    def mk():
+        return ql.ResMeasureDirectly(create_id=create_id, directionality_flag=0 if creator else 1, sequence_number=seq, purpose_id=purpose_id,
+                                     remote_node_id=remote_node_id, goodness=goodness, bell_state=ql.BellState[bell_name],
+                                     measurement_outcome=outcome, measurement_basis=ql.MeasurementBasis[basis_name])
     return mk
 
 
